@@ -47,7 +47,8 @@ Eleven were missed (or would have been, and were predicted before running) by th
 check of their own property at first and led to stronger rules - in no case was a
 rule loosened:
 * C07-c (a guard moved before the reads in the shared heartbeat parser): C07 now also
-  requires the one-shot parser's reference grammar (ONE-SHOT-GRAMMAR).
+  requires that nothing but a streaming read can fail first in a fragmentable arm
+  (FRAGMENT-SIGNAL).
 * C11-c (an unregistered extension type captured by a dispatch arm): dispatched types
   must be IANA-known. C11-d (two swapped u16 fields, both unconstrained): the field
   must be fed by the *same wire element* as in the reference grammar. C11-f (a guarded
